@@ -20,7 +20,8 @@ RULE = ("full products: Interval ends x ends (int and float typed) x query value
         "(not in the guard band); distinct by construction of the product")
 ASSUMPTIONS = ["Interval oracle: exact rational comparison of the stored ends",
                "AngleInterval oracle: d=(theta-start) mod 2pi compared with the length, guard band 1e-9 at the ends "
-               "(identical-float ends are decided)",
+               "(identical-float ends are decided); inside the band the oracle is one-sided and exact: an angle / arc that lies in the set for some "
+               "whole number of turns (rational arithmetic on the float values, pi bounded to 40 digits) must be contained, anything else is accepted",
                "overlaps/intersection/*,/,round are checked for plain Interval only (the statement names them for plain "
                "intervals; for angle intervals only contains and shifting are stated)"]
 
@@ -262,6 +263,23 @@ def _grid_intervals(g, s):
     return out
 
 
+# rational bounds of pi (40 digits): membership of a float angle in a float interval modulo 2*pi is decided EXACTLY with them unless the
+# angle is within 1e-38 of an interval end seen a whole number of turns away
+_PI_LO = F(31415926535897932384626433832795028841971, 10 ** 40)
+_PI_HI = F(31415926535897932384626433832795028841972, 10 ** 40)
+
+
+def _certainly_inside(st, en, th):
+    """True if th + 2*pi*k lies in [st, en] for some integer k in exact arithmetic (the floats taken as the rationals they are)"""
+    fs, fe, ft = F(st), F(en), F(th)
+    k0 = int((ft - fs) / (2 * _PI_LO))
+    for k in range(k0 - 2, k0 + 3):
+        lo, hi = (ft - 2 * k * _PI_HI, ft - 2 * k * _PI_LO) if k >= 0 else (ft - 2 * k * _PI_LO, ft - 2 * k * _PI_HI)
+        if fs <= lo and hi <= fe:
+            return True
+    return False
+
+
 def _expect_angle(st, en, th):
     """True / False / None(guarded)"""
     L = en - st
@@ -271,7 +289,8 @@ def _expect_angle(st, en, th):
     if d < 0:
         d += TWO_PI
     if min(abs(d), abs(d - TWO_PI), abs(d - L)) < GUARD:
-        return None
+        # inside the guard band the tolerance may accept angles that are slightly outside, but an angle that IS in the set (exactly) is contained
+        return True if _certainly_inside(st, en, th) else None
     return d < L
 
 
@@ -320,7 +339,9 @@ def _angle_contains(res, g, s):
         for rname, robj in routes[1:]:
             if type(robj) is not type(ai) or robj.start != ai.start or robj.end != ai.end:
                 res.violation(f"C16|AngleInterval|route:{rname}|not-the-same-interval", f"[{st},{en}] -> {type(robj).__name__}[{robj.start},{robj.end}]", {"op": "actor", "st": st, "en": en})
-        for th, tname in _queries(g):
+        # + the interval's own ends (and the floats next to them on the inside) seen one and two whole turns away, as a float sum produces them
+        turns = [(e_ + k_ * TWO_PI, "float") for e_ in (st, en, math.nextafter(st, en), math.nextafter(en, st)) for k_ in (-2, -1, 1, 2)]
+        for th, tname in _queries(g) + turns:
             exp = _expect_angle(st, en, float(th))
             case = {"op": "acontains", "st": st, "en": en, "th": float(th), "tth": tname}
             for rname, robj in routes[1:]:
@@ -362,6 +383,14 @@ def _expect_sub(st, en, ost, oen):
     if abs(d - TWO_PI) < GUARD:
         d = 0.0
     if abs(d) < GUARD or abs(d + M - L) < GUARD or abs(d - L) < GUARD:
+        # guard band: an arc that IS inside (exactly, for some whole number of turns) is contained; the tolerance may accept slightly more
+        fs, fe, fos, foe = F(st), F(en), F(ost), F(oen)
+        k0 = int((fos - fs) / (2 * _PI_LO))
+        for k in range(k0 - 2, k0 + 3):
+            lo = fos - 2 * k * (_PI_HI if k >= 0 else _PI_LO)
+            hi = foe - 2 * k * (_PI_LO if k >= 0 else _PI_HI)
+            if fs <= lo and hi <= fe:
+                return True
         return None
     return d + M < L
 
